@@ -117,14 +117,113 @@ func runC13(c *Ctx) {
 			c.Check("C13-R1", "mined-debit-appended-every-iteration", l.Header.Instrs[0].Pos(), bad == "", "a debit of a mined transaction is not reported ("+bad+")")
 		}
 		// unmined debits: iff in u or in mc
+		// the two lookups may sit in a private "is this a wallet credit" part that reports what it found as a bool: it
+		// says true exactly on the found edges of the lookups it makes
+		sources := []string{"existsRawUnspent", "existsRawUnminedCredit"}
+		isSrcFound := func(f *edgeFact, only string) bool {
+			if f == nil || f.Kind != "nonnil" {
+				return false
+			}
+			for _, src := range sources {
+				if (only == "" || only == src) && isResultOfCall(f.V, src, -1) {
+					return true
+				}
+			}
+			return false
+		}
+		creditHelpers := map[*ssa.Function]map[string]bool{}
+		for _, h := range p.regionTop(unmined) {
+			if h == unmined || h.Signature.Results().Len() != 2 || !isBoolType(h.Signature.Results().At(1).Type()) {
+				continue
+			}
+			has := map[string]bool{}
+			for _, src := range sources {
+				if len(callsNamed(h, src)) > 0 {
+					has[src] = true
+				}
+			}
+			if len(has) == 0 {
+				continue
+			}
+			valid := true
+			for _, bb := range h.Blocks {
+				r, isR := bb.Instrs[len(bb.Instrs)-1].(*ssa.Return)
+				if !isR {
+					continue
+				}
+				switch x := stripConv(r.Results[1]).(type) {
+				case *ssa.Const:
+					if x.Value != nil && x.Value.String() == "true" {
+						// claimed "found": only reachable over a found edge
+						if reachableAvoiding(h, nil, r, func(from *ssa.BasicBlock, si int) bool { return isSrcFound(edgeFactOf(from, si), "") }) {
+							valid = false
+						}
+					}
+				case *ssa.BinOp:
+					okCmp := x.Op == token.NEQ && isNilConst(x.Y)
+					if okCmp {
+						okCmp = false
+						for _, src := range sources {
+							if isResultOfCall(x.X, src, -1) {
+								okCmp = true
+							}
+						}
+					}
+					if !okCmp {
+						valid = false
+					}
+				default:
+					valid = false
+				}
+			}
+			// found => says true: from a found edge no return says a constant false
+			for _, bb := range h.Blocks {
+				for si := range bb.Succs {
+					if !isSrcFound(edgeFactOf(bb, si), "") {
+						continue
+					}
+					q := &PathQuery{Fn: h}
+					q.Target = func(ins ssa.Instruction, _ *ssa.BasicBlock) bool {
+						r, isR := ins.(*ssa.Return)
+						if !isR {
+							return false
+						}
+						k, isK := stripConv(r.Results[1]).(*ssa.Const)
+						return isK && k.Value != nil && k.Value.String() == "false"
+					}
+					if len(exploreFromBlock(q, bb.Succs[si], bb)) > 0 {
+						valid = false
+					}
+				}
+			}
+			if valid {
+				creditHelpers[h] = has
+			}
+		}
+		// "a wallet credit was found" edges in the builder: a lookup's non-nil edge, or the true edge of such a part
+		foundEdge := func(from *ssa.BasicBlock, si int, only string) bool {
+			f := edgeFactOf(from, si)
+			if isSrcFound(f, only) {
+				return true
+			}
+			if f != nil && f.Kind == "true" {
+				if ex, ok := f.V.(*ssa.Extract); ok && ex.Index == 1 {
+					if hc, ok := ex.Tuple.(*ssa.Call); ok {
+						if has, isH := creditHelpers[hc.Call.StaticCallee()]; isH && (only == "" || has[only]) {
+							return true
+						}
+					}
+				}
+			}
+			return false
+		}
 		for _, l := range loopsRangingOver(unmined, "TxIn") {
 			isDeb := isStoreToField("Debits")
-			for _, src := range []string{"existsRawUnspent", "existsRawUnminedCredit"} {
+			for _, src := range sources {
 				found := false
 				for b := range l.Blocks {
 					for si := range b.Succs {
-						f := edgeFactOf(b, si)
-						if f == nil || f.Kind != "nonnil" || !isResultOfCall(f.V, src, -1) {
+						if !foundEdge(b, si, src) {
 							continue
 						}
 						found = true
@@ -145,8 +244,7 @@ func runC13(c *Ctx) {
 					continue
 				}
 				ok := !reachableAvoiding(unmined, nil, st, func(from *ssa.BasicBlock, si int) bool {
-					f := edgeFactOf(from, si)
-					return f != nil && f.Kind == "nonnil" && (isResultOfCall(f.V, "existsRawUnspent", -1) || isResultOfCall(f.V, "existsRawUnminedCredit", -1))
+					return foundEdge(from, si, "")
 				})
 				c.Check("C13-R1", "unmined-debit-only-for-wallet-credits", st.Pos(), ok, "a debit is emitted for an input that spends neither an unspent mined credit nor an unconfirmed credit")
 			}
@@ -305,6 +403,64 @@ func maskOfBoolValue(v ssa.Value) (int64, bool) {
 	return 0, false
 }
 
+// maskThroughParametrisedHelper: v is result #j of a call of a same-package helper whose result #j is `x & p != 0` for
+// one of its parameters p, called with a constant for p: that constant.
+func maskThroughParametrisedHelper(v ssa.Value) (int64, bool) {
+	ex, ok := stripConv(v).(*ssa.Extract)
+	if !ok {
+		return 0, false
+	}
+	call, ok := ex.Tuple.(*ssa.Call)
+	if !ok {
+		return 0, false
+	}
+	g := call.Call.StaticCallee()
+	if g == nil || len(g.Blocks) == 0 || g.Pkg != call.Parent().Pkg {
+		return 0, false
+	}
+	var mask int64 = -1
+	for _, b := range g.Blocks {
+		r, isR := b.Instrs[len(b.Instrs)-1].(*ssa.Return)
+		if !isR || ex.Index >= len(r.Results) {
+			continue
+		}
+		rv := r.Results[ex.Index]
+		if bv, isC := constBool(rv); isC && !bv {
+			continue
+		}
+		bo, ok := rv.(*ssa.BinOp)
+		if !ok || bo.Op != token.NEQ {
+			return 0, false
+		}
+		and, ok := bo.X.(*ssa.BinOp)
+		if !ok || and.Op != token.AND {
+			return 0, false
+		}
+		var prm *ssa.Parameter
+		if q, isP := stripConv(and.Y).(*ssa.Parameter); isP {
+			prm = q
+		} else if q, isP := stripConv(and.X).(*ssa.Parameter); isP {
+			prm = q
+		}
+		if prm == nil {
+			return 0, false
+		}
+		idx := paramIndex(g, prm)
+		if idx < 0 || idx >= len(call.Call.Args) {
+			return 0, false
+		}
+		m, isK := constInt(call.Call.Args[idx])
+		if !isK {
+			return 0, false
+		}
+		if mask != -1 && mask != m {
+			return 0, false
+		}
+		mask = m
+	}
+	return mask, mask > 0
+}
+
 func isBoolType(t types.Type) bool {
 	b, ok := t.Underlying().(*types.Basic)
 	return ok && b.Kind() == types.Bool
@@ -374,6 +530,10 @@ func runFlagTyping(c *Ctx, rule string) {
 						continue
 					}
 					m, ok := maskOfBoolValue(v)
+					if !ok {
+						// a wrapper over a fetcher that takes the mask as a parameter: fetchFlag(v, <const mask>)
+						m, ok = maskThroughParametrisedHelper(v)
+					}
 					if !ok {
 						mask = 0
 					} else if mask == -1 || mask == m {
@@ -630,7 +790,8 @@ func checkBlockQualifiedLookupUsesWholeBlock(c *Ctx, rule string) {
 			ok := false
 			if blockPrm != nil {
 				for _, a := range call.Call.Args {
-					for _, o := range (&Slicer{P: p, KeepExtract: true}).Origins(a) {
+					// (the record's key and value may travel together in a small struct built at the call)
+					for _, o := range (&Slicer{P: p, KeepExtract: true, ThroughFieldsOfAllocs: true, ThroughDeref: true}).Origins(a) {
 						ex, isEx := o.(*ssa.Extract)
 						if !isEx {
 							continue
